@@ -1210,10 +1210,9 @@ def classify(s, res=None):
         return 'lsq-flat-layout-reshape'
     if k == 'loft' and s['pardim'] == 2 and len(s['sections']) == 2:
         return 'volume-loft-two-sections'
-    if k == 'loft' and 'ValueError: out of range' in msgs and any(b['periodic'] >= 0 for sec in s['sections'] for b in sec['bases']):
-        # root cause in make_splines_identical (C12 class periodic-rounded-ghost-knots-out-of-range):
-        # after reparam/lower_periodic a knot is 1+1ulp and continuity() rejects it without tolerance
-        return 'loft-periodic-rounded-knots-out-of-range'
+    # (loft of sections with periodic curves whose knots are 1 + 1ulp after reparam / lower_periodic: repaired --
+    #  BSplineBasis.continuity applies the knot tolerance to its range test; former class
+    #  loft-periodic-rounded-knots-out-of-range)
     return None
 
 
